@@ -4,6 +4,7 @@
 // amg<builtin<Eigen block>> + BiCGStab has a truthful residual w.r.t. the scalar system and reaches the tolerance.
 #include <amgcl/backend/builtin.hpp>
 #include <amgcl/value_type/eigen.hpp>
+#include <amgcl/value_type/static_matrix.hpp>
 #include <amgcl/adapter/crs_tuple.hpp>
 #include <amgcl/adapter/block_matrix.hpp>
 #include <amgcl/make_solver.hpp>
@@ -93,11 +94,116 @@ static void prop_eigen(Tape &t, Ctx &c) {
     }
 }
 
+// ---------------------------------------------------------------------------------------------------------------------------------
+// Eigen blocks vs static_matrix blocks on systems with NON-symmetric blocks.
+//  (a) value type level: math::adjoint of a block, backend::transpose of crs<Eigen block> == transpose of the scalar matrix, entry-exact;
+//  (b) operator level: amg<builtin<Eigen block>> and amg<builtin<static_matrix>> run the same algorithms on the same block matrix, so the
+//      hierarchies have the same shape and apply() agrees to rounding (eps_strong = 0: aggregates do not depend on rounding of block norms);
+//      the Eigen formulation's solve has a truthful residual w.r.t. the scalar system and converges on the model kinds.
+// System: a model block case (kinds 0-2) made non-symmetric: every off-diagonal scalar entry is scaled by an independent factor in
+// [0.5,1] (row-wise diagonal dominance and the M-matrix sign pattern survive) and every diagonal block gets a skew part
+// +s / -s (|s| <= 0.3 min(d_k,d_l), compensated on the diagonal).
+template <int B>
+static void prop_eigen_vs_static(Tape &t, Ctx &c) {
+    typedef Eigen::Matrix<double, B, B> eblk;
+    typedef amgcl::static_matrix<double, B, B> sblk;
+    typedef ab::builtin<eblk> EB; typedef ab::builtin<sblk> SBk;
+    BlockCase bc = gen_block_case(t, B, t.chance(1, 4) ? 6 : 40);
+    const ptrdiff_t nb = bc.nb, n0 = bc.A.n;
+    std::vector<std::map<ptrdiff_t, double>> rows(n0);
+    for (ptrdiff_t i = 0; i < n0; ++i) for (ptrdiff_t j = bc.A.ptr[i]; j < bc.A.ptr[i + 1]; ++j) rows[i][bc.A.col[j]] = bc.A.val[j] * (bc.A.col[j] == i ? 1.0 : t.uni(0.5, 1.0));
+    double skew = t.uni(0.05, 0.3);
+    for (ptrdiff_t I = 0; I < nb; ++I) for (int k = 0; k < B; ++k) for (int l = k + 1; l < B; ++l) {
+        ptrdiff_t a = I * B + k, b2 = I * B + l;
+        double s = skew * std::min(rows[a][a], rows[b2][b2]) * (t.b() ? 1.0 : -1.0) * t.uni(0.3, 1.0);
+        rows[a][b2] += s; rows[b2][a] -= s; rows[a][a] += std::abs(s); rows[b2][b2] += std::abs(s);
+    }
+    Csr<double> A = from_triplets<double>(n0, n0, rows);
+    bool model = bc.model();
+    std::string fk; std::vector<double> f = gen_rhs(t, A, fk);
+    int cec = static_cast<int>(t.u(0, 2));
+    unsigned ce = cec == 0 ? 8 : cec == 1 ? 3 : 3000;
+    c.desc << "eigen vs static b=" << B << " kind=" << bc.kind << " " << bc.family << " nb=" << nb << " " << describe(A) << " skew=" << skew << " rhs=" << fk << " coarse_enough=" << ce << " A=" << dump_small(A, 8);
+    // non-symmetric diagonal block present by construction (B >= 2, s != 0)
+    c.nontrivial = nb >= 2;
+    c.label("evs:b=" + std::to_string(B)); c.label("evs:kind=" + std::to_string(bc.kind)); c.label(model ? "model" : "non-model(truthfulness only)");
+
+    size_t n = static_cast<size_t>(A.n);
+    auto As = std::tie(n, A.ptr, A.col, A.val);
+    ab::crs<eblk> Ke(amgcl::adapter::block_matrix<eblk>(As));
+    ab::crs<sblk> Ks(amgcl::adapter::block_matrix<sblk>(As));
+    // ---- (a) adjoint / transpose
+    Dense<double> D(A.n, A.n);
+    for (ptrdiff_t i = 0; i < A.n; ++i) for (ptrdiff_t j = A.ptr[i]; j < A.ptr[i + 1]; ++j) D(i, A.col[j]) = A.val[j];
+    for (size_t j = 0; j < Ke.nnz; ++j) {
+        eblk a = amgcl::math::adjoint(Ke.val[j]);
+        for (int k = 0; k < B; ++k) for (int l = 0; l < B; ++l) VF_REQUIRE(a(k, l) == Ke.val[j](l, k), "math::adjoint(Eigen block): entry (" << k << "," << l << ") = " << a(k, l) << ", block has " << Ke.val[j](l, k) << " at (" << l << "," << k << ")");
+    }
+    auto Te = ab::transpose(Ke);
+    auto Ts = ab::transpose(Ks);
+    require_wellformed(*Te, "transpose(crs<Eigen block>)", true, true);
+    VF_REQUIRE(Te->nnz == Ke.nnz && Te->nrows == Ke.ncols, "transpose(crs<Eigen block>): shape/nnz");
+    for (ptrdiff_t I = 0; I < nb; ++I) for (ptrdiff_t j = Te->ptr[I]; j < Te->ptr[I + 1]; ++j) for (int k = 0; k < B; ++k) for (int l = 0; l < B; ++l) {
+        double ref = D(Te->col[j] * B + l, I * B + k); // (A^T)(I*B+k, J*B+l) = A(J*B+l, I*B+k)
+        VF_REQUIRE(Te->val[j](k, l) == ref, "transpose(crs<Eigen block>): block (" << I << "," << Te->col[j] << ") entry (" << k << "," << l << ") = " << Te->val[j](k, l) << ", scalar transpose has " << ref);
+        VF_REQUIRE(Ts->col[j] == Te->col[j] && Ts->val[j](k, l) == ref, "transpose(crs<static_matrix>): block (" << I << "," << Ts->col[j] << ") entry (" << k << "," << l << ")");
+    }
+    // ---- (b) same hierarchy, same action
+    typedef amgcl::amg<EB, amgcl::coarsening::smoothed_aggregation, amgcl::relaxation::spai0> AmgE;
+    typedef amgcl::amg<SBk, amgcl::coarsening::smoothed_aggregation, amgcl::relaxation::spai0> AmgS;
+    typename AmgE::params pe; pe.coarse_enough = ce; pe.coarsening.aggr.eps_strong = 0;
+    typename AmgS::params ps; ps.coarse_enough = ce; ps.coarsening.aggr.eps_strong = 0;
+    AmgE Pe(Ke, pe); AmgS Ps(Ks, ps);
+    auto shape = [](const std::string &rep) { size_t p0 = rep.find("level     unknowns"); return p0 == std::string::npos ? rep : rep.substr(p0); }; // level table without memory figures? keep unknowns/nonzeros columns
+    std::ostringstream oe, os; oe << Pe; os << Ps;
+    auto table = [&](const std::string &rep) { // "level unknowns nonzeros" triples
+        std::vector<long> v; std::istringstream is(shape(rep)); std::string line; std::getline(is, line); std::getline(is, line);
+        while (std::getline(is, line)) { std::istringstream ls(line); long lv, un, nz; if (ls >> lv >> un >> nz) { v.push_back(lv); v.push_back(un); v.push_back(nz); } }
+        return v;
+    };
+    std::vector<long> te = table(oe.str()), ts = table(os.str());
+    VF_REQUIRE(!te.empty() && te == ts, "amg<Eigen block> and amg<static_matrix> build hierarchies of different shape for the same block matrix:\n" << oe.str() << "\nvs\n" << os.str());
+    c.label("evs:levels=" + std::to_string(std::min<size_t>(te.size() / 3, 4)));
+    long double worst = 0;
+    for (int k = 0; k < 3; ++k) {
+        std::vector<double> r = gen_vec(t, n, k == 0 ? 0 : 2), ye(n, 0.0), ys(n, 0.0);
+        auto R = ab::reinterpret_as_rhs<eblk>(r); auto Ye = ab::reinterpret_as_rhs<eblk>(ye);
+        Pe.apply(R, Ye);
+        auto Rs = ab::reinterpret_as_rhs<sblk>(r); auto Ys = ab::reinterpret_as_rhs<sblk>(ys);
+        Ps.apply(Rs, Ys);
+        long double num = 0, den = 0;
+        for (size_t i = 0; i < n; ++i) { VF_REQUIRE(std::isfinite(ye[i]) && std::isfinite(ys[i]), "non-finite preconditioner output"); long double d = static_cast<long double>(ye[i]) - ys[i]; num += d * d; den += static_cast<long double>(ys[i]) * ys[i]; }
+        if (den > 0) worst = std::max(worst, std::sqrt(num / den));
+    }
+    // same algorithms, different rounding (Eigen inverts small blocks by cofactors, static_matrix by LU; product order): agreement to
+    // c*u*n with c = 1000 (calibrated on the unchanged tree: ratio <= 10 in all of 15000 cases, see the labels)
+    long double ratio = worst / (U * static_cast<long double>(n));
+    c.label(ratio <= 10 ? "evs:diff<=10un" : ratio <= 1e3 ? "evs:diff<=1e3un" : "evs:diff>1e3un");
+    VF_REQUIRE(ratio <= 1e3L, "amg<Eigen block>::apply differs from amg<static_matrix>::apply by " << static_cast<double>(worst) << " (relative 2-norm) on the same block matrix; rounding-level agreement expected (bound "
+               << static_cast<double>(1e3L * U * n) << ")");
+    // ---- solve with the Eigen formulation
+    try {
+        typedef amgcl::make_solver<AmgE, amgcl::solver::bicgstab<EB>> Solver;
+        typename Solver::params p; p.solver.tol = 1e-8; p.solver.maxiter = 1000; p.precond = pe;
+        auto Ab = amgcl::adapter::block_matrix<eblk>(As);
+        Solver solve(Ab, p);
+        std::vector<double> x(n, 0.0);
+        auto F = ab::reinterpret_as_rhs<eblk>(f); auto X = ab::reinterpret_as_rhs<eblk>(x);
+        size_t iters; double resid;
+        std::tie(iters, resid) = solve(Ab, F, X);
+        require_truthful(c, "amg<Eigen block>+bicgstab, non-symmetric blocks", A, f, x, iters, resid, 1e-8, 1000, model);
+        c.label(iters <= 20 ? "evs:iters<=20" : iters <= 60 ? "evs:iters<=60" : "evs:iters>60");
+    } catch (const vf::Fail &) { throw; }
+      catch (const std::runtime_error &e) { if (!model && std::string(e.what()).find("BiCGStab") != std::string::npos) c.label("breakdown:evs"); else throw; }
+}
+
 static std::vector<Prop> props() {
     return {
         Prop("eigen2", prop_eigen<2>, 150, 3000, 100, 60, {1}, 1, 4),
         Prop("eigen3", prop_eigen<3>, 150, 3000, 100, 80, {1}, 1, 4),
         Prop("eigen4", prop_eigen<4>, 150, 3000, 100, 100, {1}, 1, 4),
+        Prop("eigen_vs_static2", prop_eigen_vs_static<2>, 250, 4000, 100, 80, {1}, 1, 4),
+        Prop("eigen_vs_static3", prop_eigen_vs_static<3>, 250, 4000, 100, 100, {1}, 1, 4),
     };
 }
 static std::vector<Enum> enums() { return {}; }
